@@ -296,7 +296,10 @@ impl VhostUserBackendReqHandlerMut for RecBackend {
             self.bad(format!("get_config: invalid window {offset:#x}+{size:#x} flags {:#x}", flags.bits()));
         }
         self.rec("get_config", vec![offset as u64, size as u64, flags.bits() as u64], vec![], vec![]);
-        self.res("get_config")?;
+        // a scripted wrong-length result is itself the failure under test: it is returned whatever `fail` says
+        if matches!(self.script.config, CfgOut::Right | CfgOut::Err) {
+            self.res("get_config")?;
+        }
         match self.script.config {
             CfgOut::Right => Ok(config_pattern(offset, size, 0x5a)),
             CfgOut::Short => Ok(config_pattern(offset, size.saturating_sub(1), 0x5a)),
